@@ -69,6 +69,8 @@ func main() {
 		oracleMode(args)
 	case "c18":
 		c18Mode(args)
+	case "shipped":
+		shippedMode(args)
 	case "c14":
 		c14Mode(args)
 	case "c13":
